@@ -88,7 +88,37 @@ func ruleQueueDrained(c *Check, rule string) {
 	}
 	fname := c.P.FuncName(lp)
 	queue := mk.Common().Args[len(mk.Common().Args)-1]
-	sameChan := func(a, b ssa.Value) bool {
+	// a channel that reaches a goroutine body as a parameter stands for what its (go) call sites pass
+	var throughParams func(v ssa.Value, depth int) []ssa.Value
+	throughParams = func(v ssa.Value, depth int) []ssa.Value {
+		prm, ok := v.(*ssa.Parameter)
+		if !ok || depth > 2 {
+			return []ssa.Value{v}
+		}
+		fn := prm.Parent()
+		idx := -1
+		for i, q := range fn.Params {
+			if q == prm {
+				idx = i
+			}
+		}
+		var out []ssa.Value
+		for _, cs := range c.G.CallersOf(fn) {
+			args := cs.Common().Args
+			if cs.Common().IsInvoke() || idx < 0 {
+				continue
+			}
+			// free variables are not parameters; the argument list of a call to a literal lines up with Params
+			if idx < len(args) {
+				out = append(out, throughParams(args[idx], depth+1)...)
+			}
+		}
+		if len(out) == 0 {
+			return []ssa.Value{v}
+		}
+		return out
+	}
+	sameChan0 := func(a, b ssa.Value) bool {
 		ra, rb := engine.Origins(a), engine.Origins(b)
 		for _, x := range ra {
 			for _, y := range rb {
@@ -98,6 +128,16 @@ func ruleQueueDrained(c *Check, rule string) {
 			}
 		}
 		return sameVar(a, b) || engine.ExprKey(a) == engine.ExprKey(b)
+	}
+	sameChan := func(a, b ssa.Value) bool {
+		for _, x := range throughParams(a, 0) {
+			for _, y := range throughParams(b, 0) {
+				if sameChan0(x, y) {
+					return true
+				}
+			}
+		}
+		return false
 	}
 	lits := engine.AnonFuncsDeep(lp)
 	// is the walker goroutine awaited?
